@@ -96,11 +96,13 @@ DELETE FROM safe_update
 # A product node can be reached through more than one flagged ancestor at once
 # (e.g. Step.detach()/reattach() flags a whole subtree
 # via RECURSIVE_CHECK_WITH_PRODUCTS in step.py),
-# so duplicate rows for the same node id are possible
-# and are resolved with MIN(safe)/MIN(safe_nh):
-# the value derived through a longer (more ancestor-inclusive) chain
-# is always <= the value from a shorter chain,
-# so MIN always recovers the correct, fully-chained answer rather than an arbitrary one.
+# so duplicate rows for the same node id are possible.
+# The row that counts is the one with the largest `depth`, i.e. the one seeded at the topmost
+# flagged ancestor: only that seed reads a creator whose cached _safe is known to be current.
+# A seed further down reads the cached _safe of a creator that is itself being recomputed by
+# this very statement, which may be stale in either direction, so neither MIN nor MAX over the
+# duplicates is right. (With bare columns next to a single MAX(), SQLite takes them from the
+# row that holds the maximum.)
 #
 # `trace` carries four values per node:
 # `safe`/`safe_nh` are that node's own new _safe/_safe_ignoring_hold (what gets written out)
@@ -120,7 +122,7 @@ DELETE FROM safe_update
 # instead of requiring a second downward pass.
 FILL_SAFE_UPDATE = f"""
 INSERT INTO safe_update(i, safe, safe_nh)
-WITH RECURSIVE trace(i, safe, chain, safe_nh, chain_nh) AS (
+WITH RECURSIVE trace(i, safe, chain, safe_nh, chain_nh, depth) AS (
     -- Seed directly at each _check_safe-flagged step,
     -- using its creator's already-computed _safe/_safe_ignoring_hold and state
     -- (a root creator has no `step` row and is treated as trivially safe via COALESCE).
@@ -155,7 +157,8 @@ WITH RECURSIVE trace(i, safe, chain, safe_nh, chain_nh) AS (
             creator_step._safe_ignoring_hold AND
                 creator_step.state IN ({StepState.RUNNING.value}, {StepState.SUCCEEDED.value}),
             1
-        ) AND s.state IN ({StepState.RUNNING.value}, {StepState.SUCCEEDED.value})
+        ) AND s.state IN ({StepState.RUNNING.value}, {StepState.SUCCEEDED.value}),
+        0
     FROM step AS s
     JOIN node AS cnode ON cnode.i = s.node
     LEFT JOIN step AS creator_step ON creator_step.node = cnode.creator
@@ -174,12 +177,13 @@ WITH RECURSIVE trace(i, safe, chain, safe_nh, chain_nh) AS (
         trace.chain AND sp.state IN ({StepState.RUNNING.value}, {StepState.SUCCEEDED.value})
             AND sp._holding = 0,
         trace.chain_nh,
-        trace.chain_nh AND sp.state IN ({StepState.RUNNING.value}, {StepState.SUCCEEDED.value})
+        trace.chain_nh AND sp.state IN ({StepState.RUNNING.value}, {StepState.SUCCEEDED.value}),
+        trace.depth + 1
     FROM trace
     JOIN node AS product ON product.creator = trace.i
     JOIN step AS sp ON sp.node = product.i
 )
-SELECT i, MIN(safe), MIN(safe_nh) FROM trace GROUP BY i
+SELECT i, safe, safe_nh FROM (SELECT i, safe, safe_nh, MAX(depth) FROM trace GROUP BY i)
 """
 
 
